@@ -1,6 +1,6 @@
 import SaModel.Trace.FromSamples
 /-
-The PINNED variant of `Tracer::to_field` (before repo fix 01bb847, known finding C09-traced-unseen-null): identical to
+The PINNED variant of `Tracer::to_field` (before repo fix 5168cf7, known finding C09-traced-unseen-null): identical to
 `Tracer.to_field` (Trace/Tracer.lean) except for ONE arm — `UnknownTracer::to_field` wrote `nullable: self.nullable`, the
 flag of a position no sample reached, instead of `nullable: true`.  Kept beside the model of the repaired code for the
 witness `Props.C09.C09_unseen_position_outside_pinned`; nothing else refers to it.
@@ -9,7 +9,7 @@ namespace SaModel.Trace
 open SaModel
 
 mutual
-/-- `Tracer::to_field` before 01bb847 -/
+/-- `Tracer::to_field` before 5168cf7 -/
 def Tracer.to_fieldPinned (o : Options) : Tracer → R Field
   | .unknown n p nl => withOverwrite o n p fun _ =>
     -- pinned: `nullable: self.nullable` — the flag of a position no sample reached is unset
@@ -78,7 +78,7 @@ def Tracer.to_schemaPinned (o : Options) (t : Tracer) : R (List Field) := do
     | .null => fail "No records found to determine schema"
     | _ => fail "Schema tracing is not directly supported for the root data type"
 
-/-- `SerdeArrowSchema::from_samples(xs, o)` before 01bb847 (the tracing itself is unchanged) -/
+/-- `SerdeArrowSchema::from_samples(xs, o)` before 5168cf7 (the tracing itself is unchanged) -/
 def fromSamplesUnseenPinned (o : Options) (xs : List SVal) : R (List Field) := do
   let t ← fromSamplesTracer .fixed o xs
   t.to_schemaPinned o
